@@ -240,6 +240,7 @@ pub assume_specification[ SymbolicAsyncGraph::reach_forward ](g: &SymbolicAsyncG
 pub assume_specification[ SymbolicAsyncGraph::trap_forward ](g: &SymbolicAsyncGraph, s: &GraphColoredVertices) -> (r: GraphColoredVertices);
 pub assume_specification[ SymbolicAsyncGraph::trap_backward ](g: &SymbolicAsyncGraph, s: &GraphColoredVertices) -> (r: GraphColoredVertices);
 pub assume_specification[ SymbolicAsyncGraph::mk_unit_colors ](g: &SymbolicAsyncGraph) -> (r: GraphColors);
+pub assume_specification[ SymbolicAsyncGraph::restrict ](g: &SymbolicAsyncGraph, s: &GraphColoredVertices) -> (r: SymbolicAsyncGraph);
 pub assume_specification[ GraphColoredVertices::approx_cardinality ](a: &GraphColoredVertices) -> (r: f64);
 pub assume_specification[ GraphColoredVertices::exact_cardinality ](a: &GraphColoredVertices) -> (r: u64);
 pub assume_specification[ GraphColoredVertices::symbolic_size ](a: &GraphColoredVertices) -> (r: usize);
